@@ -11,30 +11,6 @@ func init() {
 	verifRegister("verifC05Pairwise", verifC05Pairwise)
 }
 
-// verifBindingRequest builds an authenticated Binding request from the remote
-// peer. ctrl: 0 none, 1 ICE-CONTROLLING, 2 ICE-CONTROLLED, 3 both.
-func verifBindingRequest(id [stun.TransactionIDSize]byte, ctrl int, tb uint64, useCandidate bool, prio uint32) *stun.Message {
-	setters := []stun.Setter{stun.BindingRequest, stun.NewTransactionIDSetter(id),
-		stun.NewUsername(verifLocalUfrag + ":" + verifRemoteUfrag)}
-	if useCandidate {
-		setters = append(setters, UseCandidate())
-	}
-	switch ctrl {
-	case 1:
-		setters = append(setters, AttrControlling(tb))
-	case 2:
-		setters = append(setters, AttrControlled(tb))
-	case 3:
-		setters = append(setters, AttrControlled(tb), AttrControlling(tb))
-	}
-	setters = append(setters, PriorityAttr(prio), stun.NewShortTermIntegrity(verifLocalPwd), stun.Fingerprint)
-	m, err := stun.Build(setters...)
-	if err != nil {
-		panic("verif: build request: " + err.Error())
-	}
-	return m
-}
-
 func verifC05RoleConflict() {
 	controlling := verifChoice(2) == 1
 	lite := false
